@@ -2,6 +2,8 @@
 real clock and logs every write statement (before it runs) and every returned call to an
 append-only file; the parent SIGKILLs it at a random instant, reopens the database with a
 fresh connection and checks the property statement on what is there.
+A negative delay means "exit without shutdown": the child leaves through sys.exit() after
+|delay| seconds, between two calls, without committing or closing anything.
 usage (replay): python -m harness.c06_kill <sqlite|peewee> <seed> <kill_after_s>
 internal:       python -m harness.c06_kill child <backend> <dir> <seed>"""
 import json
@@ -52,7 +54,10 @@ def child(backend, d, seed):
     out("READY")
     ids = []
     extra = 0
+    stop = os.path.join(d, "stop")
     while True:
+        if os.path.exists(stop):
+            sys.exit(0)                 # exit without shutdown
         x = rng.random()
         name, ok = None, True
         try:
@@ -117,9 +122,17 @@ def kill_run(backend, seed, delay):
         if p.poll() is not None:
             res["violations"].append(("C06:sigkill-child-failed", "child exited early: " + p.stderr.read().decode()[-300:]))
             return res
-        time.sleep(delay)
-        os.kill(p.pid, signal.SIGKILL)
-        p.wait()
+        time.sleep(abs(delay))
+        if delay < 0:
+            open(os.path.join(d, "stop"), "w").close()
+            try:
+                p.wait(timeout=60)
+            except subprocess.TimeoutExpired:
+                os.kill(p.pid, signal.SIGKILL)
+                p.wait()
+        else:
+            os.kill(p.pid, signal.SIGKILL)
+            p.wait()
         lines = open(logp, "rb").read().split(b"\n")
         recs = []
         for ln in lines:
